@@ -127,6 +127,9 @@ type CertSpec struct {
 	IssuerReencoded bool
 	// the subject is the empty sequence (RFC 5280 4.1.2.6: allowed with a critical subjectAltName); pkix.Name.String() is ""
 	EmptySubject bool
+	// the order of the extensions inside the certificate: "" (as crypto/x509 writes them), "reversed", "rotated" (the last
+	// one first), "eku-first", "ku-first", "bc-first"
+	ExtOrder string
 }
 
 type Issued struct {
@@ -333,6 +336,13 @@ func issue(spec *CertSpec, parent *Issued) (*Issued, error) {
 	if err != nil {
 		return nil, err
 	}
+	if spec.ExtOrder != "" {
+		if re, rerr := reorderExtensions(der, signer, spec.ExtOrder); rerr == nil {
+			der = re
+		} else {
+			return nil, rerr
+		}
+	}
 	if spec.CorruptSig {
 		der = corruptCertSignature(der)
 	}
@@ -341,6 +351,143 @@ func issue(spec *CertSpec, parent *Issued) (*Issued, error) {
 		return nil, err
 	}
 	return &Issued{Spec: spec, Cert: c, Key: key}, nil
+}
+
+// reorderExtensions rewrites the certificate with its extensions in another order and signs it again with the same
+// algorithm (the to-be-signed part is re-encoded field by field from the raw values; only the extension list changes).
+func reorderExtensions(der []byte, signer crypto.Signer, order string) ([]byte, error) {
+	var outer struct {
+		TBS asn1.RawValue
+		Alg pkix.AlgorithmIdentifier
+		Sig asn1.BitString
+	}
+	if _, err := asn1.Unmarshal(der, &outer); err != nil {
+		return nil, err
+	}
+	var fields []asn1.RawValue
+	rest := outer.TBS.Bytes
+	for len(rest) > 0 {
+		var f asn1.RawValue
+		var err error
+		rest, err = asn1.Unmarshal(rest, &f)
+		if err != nil {
+			return nil, err
+		}
+		fields = append(fields, f)
+	}
+	xi := -1
+	for i, f := range fields {
+		if f.Class == asn1.ClassContextSpecific && f.Tag == 3 {
+			xi = i
+		}
+	}
+	if xi < 0 {
+		return der, nil
+	}
+	var exts []asn1.RawValue
+	var seq asn1.RawValue
+	if _, err := asn1.Unmarshal(fields[xi].Bytes, &seq); err != nil {
+		return nil, err
+	}
+	rest = seq.Bytes
+	for len(rest) > 0 {
+		var e asn1.RawValue
+		var err error
+		rest, err = asn1.Unmarshal(rest, &e)
+		if err != nil {
+			return nil, err
+		}
+		exts = append(exts, e)
+	}
+	oidOf := func(e asn1.RawValue) asn1.ObjectIdentifier {
+		var id asn1.ObjectIdentifier
+		asn1.Unmarshal(e.Bytes, &id)
+		return id
+	}
+	first := func(id asn1.ObjectIdentifier) {
+		for i, e := range exts {
+			if oidOf(e).Equal(id) {
+				exts = append(append([]asn1.RawValue{e}, exts[:i]...), exts[i+1:]...)
+				return
+			}
+		}
+	}
+	switch order {
+	case "reversed":
+		for i, j := 0, len(exts)-1; i < j; i, j = i+1, j-1 {
+			exts[i], exts[j] = exts[j], exts[i]
+		}
+	case "rotated":
+		if len(exts) > 1 {
+			exts = append([]asn1.RawValue{exts[len(exts)-1]}, exts[:len(exts)-1]...)
+		}
+	case "eku-first":
+		first(oidExtKeyUsage)
+	case "ku-first":
+		first(oidKeyUsage)
+	case "bc-first":
+		first(asn1.ObjectIdentifier{2, 5, 29, 19})
+	}
+	var body []byte
+	for _, e := range exts {
+		body = append(body, e.FullBytes...)
+	}
+	seqDER, err := asn1.Marshal(asn1.RawValue{Class: asn1.ClassUniversal, Tag: asn1.TagSequence, IsCompound: true, Bytes: body})
+	if err != nil {
+		return nil, err
+	}
+	x3, err := asn1.Marshal(asn1.RawValue{Class: asn1.ClassContextSpecific, Tag: 3, IsCompound: true, Bytes: seqDER})
+	if err != nil {
+		return nil, err
+	}
+	var tbsBody []byte
+	for i, f := range fields {
+		if i == xi {
+			tbsBody = append(tbsBody, x3...)
+		} else {
+			tbsBody = append(tbsBody, f.FullBytes...)
+		}
+	}
+	tbs, err := asn1.Marshal(asn1.RawValue{Class: asn1.ClassUniversal, Tag: asn1.TagSequence, IsCompound: true, Bytes: tbsBody})
+	if err != nil {
+		return nil, err
+	}
+	orig, err := x509.ParseCertificate(der)
+	if err != nil {
+		return nil, err
+	}
+	var h crypto.Hash
+	var opts crypto.SignerOpts
+	switch orig.SignatureAlgorithm {
+	case x509.ECDSAWithSHA256, x509.SHA256WithRSA:
+		h = crypto.SHA256
+	case x509.ECDSAWithSHA384, x509.SHA384WithRSA:
+		h = crypto.SHA384
+	case x509.ECDSAWithSHA512, x509.SHA512WithRSA:
+		h = crypto.SHA512
+	case x509.SHA256WithRSAPSS:
+		h, opts = crypto.SHA256, &rsa.PSSOptions{SaltLength: rsa.PSSSaltLengthEqualsHash, Hash: crypto.SHA256}
+	case x509.SHA384WithRSAPSS:
+		h, opts = crypto.SHA384, &rsa.PSSOptions{SaltLength: rsa.PSSSaltLengthEqualsHash, Hash: crypto.SHA384}
+	case x509.SHA512WithRSAPSS:
+		h, opts = crypto.SHA512, &rsa.PSSOptions{SaltLength: rsa.PSSSaltLengthEqualsHash, Hash: crypto.SHA512}
+	default:
+		return der, nil // Ed25519 and the like: left as written
+	}
+	if opts == nil {
+		opts = h
+	}
+	hh := h.New()
+	hh.Write(tbs)
+	sig, err := signer.Sign(rand.Reader, hh.Sum(nil), opts)
+	if err != nil {
+		return nil, err
+	}
+	return asn1.Marshal(struct {
+		TBS asn1.RawValue
+		Alg pkix.AlgorithmIdentifier
+		Sig asn1.BitString
+	}{asn1.RawValue{FullBytes: tbs}, outer.Alg, asn1.BitString{Bytes: sig, BitLength: 8 * len(sig)}})
 }
 
 // corruptCertSignature flips one bit in the last byte of the DER (inside the signature BIT STRING).
